@@ -784,6 +784,13 @@ func (bal *Balancer) balanceBlock(blkid arvados.SizedDigest, blk *BlockState) ba
 	blockState := computeBlockState(slots, nil, len(blk.Replicas), 0)
 
 	var lost bool
+	if len(blk.Replicas) == 0 {
+		for _, desired := range blk.Desired {
+			if desired > 0 {
+				lost = true
+			}
+		}
+	}
 	var changes []string
 	for _, slot := range slots {
 		// TODO: request a Touch if Mtime is duplicated.
